@@ -54,38 +54,37 @@ Record exec := mkExec {
   steps_reset_at : nat;
   live : list nat;                 (* live_tasks *)
   recorded : list sstep;           (* CURRENT_SCHEDULE.steps, newest first *)
-  cfg_max_steps : max_steps;
   panicking : bool;                (* std::thread::panicking() *)
   in_cleanup : bool;
 }.
 
 Definition with_tasks (e : exec) (ts : list task) : exec :=
   mkExec ts (current e) (next e) (has_yielded e) (ctx_switches e) (steps_reset_at e) (live e) (recorded e)
-         (cfg_max_steps e) (panicking e) (in_cleanup e).
+         (panicking e) (in_cleanup e).
 Definition with_current_next (e : exec) (c n : sched_task) : exec :=
   mkExec (tasks e) c n (has_yielded e) (ctx_switches e) (steps_reset_at e) (live e) (recorded e)
-         (cfg_max_steps e) (panicking e) (in_cleanup e).
+         (panicking e) (in_cleanup e).
 Definition with_yielded (e : exec) (b : bool) : exec :=
   mkExec (tasks e) (current e) (next e) b (ctx_switches e) (steps_reset_at e) (live e) (recorded e)
-         (cfg_max_steps e) (panicking e) (in_cleanup e).
+         (panicking e) (in_cleanup e).
 Definition with_ctx (e : exec) (n : nat) : exec :=
   mkExec (tasks e) (current e) (next e) (has_yielded e) n (steps_reset_at e) (live e) (recorded e)
-         (cfg_max_steps e) (panicking e) (in_cleanup e).
+         (panicking e) (in_cleanup e).
 Definition with_reset (e : exec) (n : nat) : exec :=
   mkExec (tasks e) (current e) (next e) (has_yielded e) (ctx_switches e) n (live e) (recorded e)
-         (cfg_max_steps e) (panicking e) (in_cleanup e).
+         (panicking e) (in_cleanup e).
 Definition with_live (e : exec) (l : list nat) : exec :=
   mkExec (tasks e) (current e) (next e) (has_yielded e) (ctx_switches e) (steps_reset_at e) l (recorded e)
-         (cfg_max_steps e) (panicking e) (in_cleanup e).
+         (panicking e) (in_cleanup e).
 Definition with_recorded (e : exec) (r : list sstep) : exec :=
   mkExec (tasks e) (current e) (next e) (has_yielded e) (ctx_switches e) (steps_reset_at e) (live e) r
-         (cfg_max_steps e) (panicking e) (in_cleanup e).
+         (panicking e) (in_cleanup e).
 Definition with_panicking (e : exec) (b : bool) : exec :=
   mkExec (tasks e) (current e) (next e) (has_yielded e) (ctx_switches e) (steps_reset_at e) (live e) (recorded e)
-         (cfg_max_steps e) b (in_cleanup e).
+         b (in_cleanup e).
 
-Definition init_exec (ms : max_steps) : exec :=
-  mkExec [] SNone SNone false 0 0 [] [] ms false false.
+Definition init_exec : exec :=
+  mkExec [] SNone SNone false 0 0 [] [] false false.
 
 Definition sched_id (s : sched_task) : option nat := match s with SSome t => Some t | _ => None end.
 Definition sched_eqb (a b : sched_task) : bool :=
@@ -287,7 +286,7 @@ Definition all_runnable_detached (e : exec) : bool :=
   forallb (fun t => match get_task e t with Some tk => negb (is_runnable tk) || t_detached tk | None => true end) (live e).
 
 Section WithScheduler.
-Context {SS : Type} (sch : scheduler SS).
+Context {SS : Type} (sch : scheduler SS) (ms : max_steps).     (* ms = config.max_steps *)
 
 (* ExecutionState::schedule *)
 Definition schedule (e : exec) (st : SS) : (option step_error * exec * SS * list event) :=
@@ -295,7 +294,7 @@ Definition schedule (e : exec) (st : SS) : (option step_error * exec * SS * list
   | SNone =>
     let e := with_ctx e (Datatypes.S (ctx_switches e)) in
     let bound :=
-      match cfg_max_steps e with
+      match ms with
       | FailAfter n => if is_step_bound_exceeded e n then Some true else None
       | ContinueAfter n => if is_step_bound_exceeded e n then Some false else None
       | MSNone => None
@@ -498,12 +497,12 @@ Fixpoint run_loop (fuel : nat) (w : world) (st : SS) : world * SS * outcome :=
   end.
 
 (* spawn_main_thread + run_to_completion *)
-Definition init_world (ms : max_steps) (main : code) (objs : store) : world :=
+Definition init_world (main : code) (objs : store) : world :=
   let tk := mkTask Runnable false false false false None [0%N] in
-  let e := init_exec ms in
+  let e := init_exec in
   mkWorld (with_live (with_tasks e [tk]) [0%nat]) objs [Some main] [].
 
-Definition run_exec (fuel : nat) (ms : max_steps) (main : code) (objs : store) (st : SS) : world * SS * outcome :=
-  run_loop fuel (init_world ms main objs) st.
+Definition run_exec (fuel : nat) (main : code) (objs : store) (st : SS) : world * SS * outcome :=
+  run_loop fuel (init_world main objs) st.
 
 End WithScheduler.
